@@ -254,6 +254,18 @@ def c02(tier, rng):
             b.step('recv', c=1, n=len(hm) + 1)
             b.step('trl', c=1)
             out.append(b.q().done())
+    # back-pressure: a transport that holds one [or 3] unread envelope(s) per direction (like goat's own unbuffered
+    # channel transport), the caller sending and receiving concurrently: every hop is bounded, nothing may
+    # wait for itself
+    for kind, hprog in (('bidi', 'echo'), ('bidi', 'burst'), ('bidi', 'afterEOF'), ('ss', 'burst'), ('cs', 'afterEOF')):
+        for cap in (1, 3):
+            for n in ([8, 30] if tier == 'quick' else [2, 8, 30, 120]):
+                if hprog == 'afterEOF' and kind == 'bidi' and n > 8:
+                    continue
+                sc_ = stream_scn('C02', 'back-pressure cap=%d: %s concurrent/%s n=%d' % (cap, kind, hprog, n), kind, 'concurrent',
+                                 hprog, n, n if hprog != 'afterEOF' else 2, ser=bool(n % 3))
+                sc_['cap'] = cap
+                out.append(sc_)
     # several streams multiplexed on one connection
     for k in ([2, 5] if tier == 'quick' else [2, 3, 8, 16, 32]):
         for rep in range(2 if tier == 'quick' else 6):
@@ -524,6 +536,20 @@ def generate(prop, tier, seed, genfn=None, first=1):
     if prop in ('C01', 'C02', 'C03', 'C05', 'C07', 'C11') and (genfn is None or genfn.__name__ == prop.lower()):
         base = [s for s in scens if not s.get('topo')]
         scens = scens + two_conn_variants(base, tier, rng)
+    if prop in ('C11', 'C07') and (genfn is None or genfn.__name__ == prop.lower()):
+        # the same programs over a transport with back-pressure (2 unread envelopes per direction)
+        import copy
+        extra = []
+        for k, s in enumerate(scens):
+            if s.get('topo') or s.get('runner') or s.get('manual') or s.get('cap') or s.get('rawsrv') or s.get('rawcli'):
+                continue
+            if tier == 'quick' and k % 4:
+                continue
+            c = copy.deepcopy(s)
+            c['cap'] = 2
+            c['tag'] = 'back-pressure cap=2: ' + c.get('tag', '')
+            extra.append(c)
+        scens = scens + extra
     for i, s in enumerate(scens):
         s['sc'] = first + i
         s.setdefault('steps', [])
